@@ -981,4 +981,45 @@ def identity(ctx, res):
         res.oblige(got == want, f"{cname}.equals", mod.loc(fn),
                    f"{cname}.equals compares {sorted(got)}; registrations are "
                    f"identified by {sorted(want)}")
+        # fields held through weak references are compared through their
+        # referents (a weakref compares by *value* of live referents and by
+        # identity of dead ones), and the target object by identity
+        init = repo.func(rel, f"{cname}.__init__")
+        weak = set()
+        for a in ast.walk(init):
+            if isinstance(a, ast.Assign) and any(
+                    isinstance(c, ast.Call) and norm(c.func).split(".")[-1]
+                    in ("ref", "WeakMethod", "proxy")
+                    for c in ast.walk(a.value)):
+                for t in a.targets:
+                    if isinstance(t, ast.Attribute) \
+                            and isinstance(t.value, ast.Name) \
+                            and t.value.id == "self":
+                        weak.add(t.attr)
+        on = fn.args.args[1].arg if len(fn.args.args) >= 2 else "other"
+        for cmp_ in [c for c in ast.walk(fn) if isinstance(c, ast.Compare)]:
+            sides = [cmp_.left] + list(cmp_.comparators)
+            for f in sorted(weak):
+                raw = [x for x in sides if isinstance(x, ast.Attribute)
+                       and x.attr == f and isinstance(x.value, ast.Name)
+                       and x.value.id in ("self", on)]
+                called = [x for x in sides if isinstance(x, ast.Call)
+                          and isinstance(x.func, ast.Attribute)
+                          and x.func.attr == f and not x.args]
+                if not raw and not called:
+                    continue
+                res.oblige(not raw, f"{cname}.equals:{f}:referent",
+                           mod.loc(cmp_),
+                           f"`{norm(cmp_)}` compares the weak reference "
+                           f"objects themselves: live referents are then "
+                           f"compared by value (==) and dead ones by "
+                           f"identity of the reference, so equal but "
+                           f"distinct objects share one registration")
+                if f == "target" and called:
+                    res.oblige(all(isinstance(o, (ast.Is, ast.IsNot))
+                                   for o in cmp_.ops),
+                               f"{cname}.equals:{f}:identity", mod.loc(cmp_),
+                               f"`{norm(cmp_)}`: the target object identifies "
+                               f"a registration by identity (`is`), not by "
+                               f"value")
     res.floor(13)
